@@ -224,14 +224,30 @@ theorem mmSaneB_spec {k : STree} (h : mmSaneB k = true) : (k.info.max = 0 ∨ k.
 
 theorem Out.err_errs (k : EKind) (p : Bytes) : (Out.err k p).errs = [{ kind := k, path := p }] := rfl
 
-section node
-variable (X : SchemaX) (o : VOpts) (cx : Cx) (hop : o.operational = false) (hu : X.uniques = []) {E L : List DNode} (hc : LvCnt E L)
-include hop hu hc
+/-- every error of `lyd_validate_unique` is a `NoUniq` error -/
+theorem uniqueOut_kind (X : SchemaX) (o : VOpts) (cx : Cx) (sibs : List DNode) (k : STree) :
+    ∀ e ∈ (uniqueOut X o cx sibs k).errs, e.kind = .noUniq := by
+  intro e he
+  unfold uniqueOut at he
+  dsimp only at he
+  split at he
+  · simp at he
+  · split at he
+    · rw [Out.err_errs, List.mem_singleton] at he
+      rw [he]
+    · simp at he
 
-/-- soundness: an error of the node's checks names a cardinality constraint the explicit data violate -/
+section node
+variable (X : SchemaX) (o : VOpts) (cx : Cx) (hop : o.operational = false) {E L : List DNode} (hc : LvCnt E L)
+include hop hc
+
+omit hop in
+/-- soundness: an error of the node's checks names a cardinality constraint the explicit data violate, or it is an error of
+`lyd_validate_unique` on a list that is not state-guarded -/
 theorem node_sound (k : STree) (hk : k.info.kind ≠ .choice) (hs : saneData k = true)
     (hH : hasInst L k.sid = (hasInst E k.sid || wantsImplicit o k)) :
-    ∀ e ∈ (nodeOut X o cx L k).errs, e.kind ∈ cardNode o E k := by
+    ∀ e ∈ (nodeOut X o cx L k).errs, e.kind ∈ cardNode o E k ∨
+      (e.kind = .noUniq ∧ k.info.kind = .list ∧ (o.noState && !k.info.config) = false ∧ (uniqueOut X o cx L k).errs ≠ []) := by
   intro e he
   cases k with
   | mk s i ks =>
@@ -265,6 +281,7 @@ theorem node_sound (k : STree) (hk : k.info.kind ≠ .choice) (hs : saneData k =
           have hE : hasInst E s = false := by
             have := hH; rw [hm.1.2] at this
             simpa [hd] using this.symm
+          left
           rw [he]
           simp [hm.1.1, instsOf_isEmpty_iff, hE]
         · rw [if_neg hm] at he; simp at he
@@ -278,23 +295,26 @@ theorem node_sound (k : STree) (hk : k.info.kind ≠ .choice) (hs : saneData k =
           simp only [STree.info, STree.sid] at hmo
           rw [hc.len_eq hHH] at hmo
           rcases hmo with ⟨h1, h2⟩ | ⟨h1, h2, h3⟩
-          · rw [h1]; simp [h2]
-          · rw [h1]; simp [h2, h3]
+          · left; rw [h1]; simp [h2]
+          · left; rw [h1]; simp [h2, h3]
         · exfalso
           unfold minmaxOut at he
           simp [STree.info, hd.1, hd.2] at he
       | list =>
         simp only [hkind] at he hs hH
-        rw [uniqueOut_nil X o cx L _ hu, Out.append_empty] at he
-        have hmm := mmSaneB_spec hs
-        simp only [STree.info] at hmm
-        have hHH : hasInst L s = hasInst E s := by rw [hH]; simp
-        have hmo := minmaxOut_mem X.base o cx L (.mk s i ks) hmm.1 hmm.2 (hc.insts_le hHH) e he
-        simp only [STree.info, STree.sid] at hmo
-        rw [hc.len_eq hHH] at hmo
-        rcases hmo with ⟨h1, h2⟩ | ⟨h1, h2, h3⟩
-        · rw [h1]; simp [h2]
-        · rw [h1]; simp [h2, h3]
+        rw [Out.append_errs, List.mem_append] at he
+        rcases he with he | he
+        · have hmm := mmSaneB_spec hs
+          simp only [STree.info] at hmm
+          have hHH : hasInst L s = hasInst E s := by rw [hH]; simp
+          have hmo := minmaxOut_mem X.base o cx L (.mk s i ks) hmm.1 hmm.2 (hc.insts_le hHH) e he
+          simp only [STree.info, STree.sid] at hmo
+          rw [hc.len_eq hHH] at hmo
+          rcases hmo with ⟨h1, h2⟩ | ⟨h1, h2, h3⟩
+          · left; rw [h1]; simp [h2]
+          · left; rw [h1]; simp [h2, h3]
+        · right
+          exact ⟨uniqueOut_kind X o cx L _ e he, hkind, hst', List.ne_nil_of_mem he⟩
 
 end node
 
